@@ -1,9 +1,14 @@
 #!/bin/bash
-# seedmatrix.sh : every seeded change against the check of the property it breaks (sequential; /repo is mutated meanwhile)
-cd /verif
-for d in seeded/C*/; do
-  id=$(basename $d); p=$(python3 -c "import json;print(json.load(open('$d/meta.json'))['breaks'])")
-  s=$(date +%s); out=$(bash harness/seedrun.sh /verif/$d $p 2>&1); e=$(date +%s)
+# seedmatrix.sh [seed-id...] : every seeded change against the check of the property it breaks
+# (sequential; the repository $VERIF_REPO is mutated meanwhile -- use a scratch copy, e.g. under `vp run --with-repo`,
+#  with VERIF_REPO=$VP_RUN_REPO, to leave /repo alone)
+V="${VERIF_ROOT:-$(cd "$(dirname "${BASH_SOURCE[0]}")/.." && pwd)}"; export VERIF_ROOT="$V"
+cd "$V"
+ids="$@"; [ -n "$ids" ] || ids=$(ls seeded)
+for id in $ids; do
+  d=seeded/$id
+  p=$(python3 -c "import json;print(json.load(open('$d/meta.json'))['breaks'])")
+  s=$(date +%s); out=$(bash harness/seedrun.sh "$V/$d" $p 2>&1); e=$(date +%s)
   echo "$id -> $p: $(echo "$out" | head -1 | sed 's/^SEED [^ ]* check [^:]*: //') ($((e-s))s)"
   echo "$out" | sed -n 2,3p | cut -c1-220
 done
